@@ -141,7 +141,7 @@ PROPS = {
         "Machine-checked acyclicity of the extracted lock order and a machine-checked no-deadlock theorem for any threads that respect it; data-race freedom and completion of every call are exercised under the race detector and watchdogs, which sample the scheduler's interleavings.",
         "level 'other': the theorem covers lock-order deadlocks among library mutexes only, under the soundness of the static extraction (calls through function values such as TransportOption closures and user subscribers are not resolved; all instances of a mutex type are merged; one path is excluded as infeasible with a written justification, see coq/model/Locks.v); data races, channel / goroutine waits and re-entrant subscriber calls are covered only by the race-instrumented stress suite and watchdogs (a test); the Go memory model and sync primitives are assumed",
         corr=["corr/TransportCorr.v"], level="other"), lockgraph=True),
-    "C01": P("props/C01.v", ["e2e", "e2erestart", "nodeflow", "nodevalidate", "noderestart", "crash", "gsnode", "fsmrace"],
+    "C01": P("props/C01.v", ["e2e", "e2erestart", "nodeflow", "nodevalidate", "noderestart", "crash", "gsnode", "fsmrace", "fsmtable"],
         "control part, machine-checked over every history of the node model: a per-handler analysis (every handler, every input: which completion events it may raise on a channel, proved by symbolic execution of the handler programs) lifted through the go-statemachine model to a history invariant -- an initiator's channel is Completing / Completed only if its history contains the authenticated responder's final un-paused Complete and a successful completion of its own transport (or the transport completed while still awaiting acceptance); a responder puts a final Complete on the wire only from a local completion input; composed over an authentic network. Data part (a test): two real managers over real graphsync and the real libp2p data-transfer network on a mock network, payload shapes / limits raised in rounds / finalization / forced pause / pauses / per-channel stores, checking responder Completed, byte-identical payload at the receiver, Received = Queued = Sent = unique size",
         "Machine-checked proof of the control clause over all histories and oracle answers of the hand-written node model (tied to impl/*.go by the node suites); the data clause is checked on real nodes by the e2e suite.",
         "partial: graphsync's contract (a request reported complete has delivered every selected block; both ends report each block once with the same size) is assumed, so 'the receiver holds the data' and 'totals agree' are exercised by the e2e test only; interrupted transfers (link cut after k data events, either or both processes stopped and started again on their datastores, restart by either side, a second cut) are in the e2erestart suite; the node model's tie to the code is differential testing",
